@@ -125,6 +125,53 @@ claimed["C15"] = (
     "trusted. Machine bound: marker ids below 2^64-1; the boundary is a known finding (u64 wrap of the counter in builds "
     "without overflow checks), witnessed in Coq and reproduced on the real code. Tie as C14.", "5.C15")
 ENGINE["C15"] = "coq-saveload"
+claimed["C06"] = (
+    "Theorems (Coq, closed under the global context) about the model of joins (World/Join.v: keys from the members' "
+    "masks, ascending walk, per-member get in tuple order through three guarded storage primitives): the keys are strictly "
+    "ascending (each index once); an index is visited iff every member has it, where a storage / restricted storage / "
+    "drain has its mask, the entities resource the live-or-pending indices, a bit set its bits, a negated storage the "
+    "complement, a change set its keys and an optional member everything; the items' indices of the whole join are that "
+    "intersection with one item per member; an early stop visits a prefix; an optional member is reported present exactly "
+    "when it has the index; the lending join visits the same indices and its lookup by entity / by index answers exactly "
+    "for (live entities in) the intersection; every storage kind joins like the plain map; the faithful allocator and the "
+    "lifecycle specification give the same join, so joins are covered by the refinement theorems of C01/C02. Tie: tuples "
+    "of 1-8 type-erased members run through the real macro-generated tuple impls, BitAnd tree, JoinIter / JoinLendIter / "
+    "MaybeJoin / AntiStorage / Drain / RestrictedStorage / ChangeSet impls and hibitset iteration over sparse masks "
+    "straddling 64 / 4096 / 262144, on all 16 storages, interleaved with direct operations; items, events, destroyed "
+    "values and the storage contents afterwards must equal the specification's. Partial: that each item equals a direct "
+    "lookup and that a mutation lands on that entity only is shown by the correspondence (every join is followed by "
+    "Mask/Get observations), not yet by a theorem; hibitset's layered iteration is modelled as ascending set iteration.",
+    "5.C06")
+claimed["C07"] = (
+    "Theorems: in the model the parallel join is the sequential join - same items, same final storages - for every member "
+    "mix that has the ParJoin impls, whatever the pool size; the indices delivered are the intersection without "
+    "repetition; every storage kind behaves as the plain map. Tie: the real par_join runs on rayon pools of 0-64 threads "
+    "over sparse and boundary-straddling masks with shared and mutable members (all DistinctStorage kinds), restricted "
+    "members and optional members; the rows delivered by the workers (sorted by index) and the storage contents "
+    "afterwards must equal the specification's; independently of the model, a parallel join that follows the same "
+    "read-only join run sequentially must deliver the same rows. Partial: the scheduler's split tree (hibitset's "
+    "BitProducer, rayon's bridge) is outside the model - the theorem says what any correct split must deliver, the "
+    "correspondence samples the real splits.", "5.C07")
+claimed["C13"] = (
+    "Theorems: a restricted view is a join member exactly where the storage is; reading through an item is the guarded "
+    "read of the item's own index (the primitive a direct join uses); item types without get_other report no lookups; "
+    "looking up another entity answers exactly for handles that are alive and whose index is in the mask, and neither it "
+    "nor anything else done through an item changes any storage's membership; every storage kind behaves as the plain "
+    "map. Tie: restrict() / restrict_mut() / shared reference to restrict_mut() joined sequentially, lending and in "
+    "parallel on all 16 storages; per item get, get_mut on a caller-chosen subset (i mod m = r), get_other / "
+    "get_other_mut of live, dead, stale (reused index) and component-less handles; readers on the tracked storages "
+    "observe the events; all compared with the specification. Partial: 'a Modified event only for the items fetched "
+    "mutably' is decided by the correspondence on the event streams, not yet by a theorem.", "5.C13")
+claimed["C16"] = (
+    "Theorems: for every sequence of (entity, amount) pairs the change set holds, per index, the combination of its "
+    "amounts in arrival order (a non-commutative combination, so the order is observable) and nothing for an index that "
+    "is not mentioned; collecting, extending and adding one by one agree (extend = collect of the concatenation); the slot "
+    "operations are these functions and touch no other slot; as a join member a change set has exactly its keys, a join "
+    "visits each index of the intersection once, the item handed out is the accumulated amount (taken out when joined by "
+    "value, updated in place when joined mutably, untouched when shared), and a change set joined by value is empty "
+    "afterwards. Tie: ChangeSet<Amt> slots driven through new / add / collect / extend / clear with repeated and dead "
+    "handles, joined by reference, mutably and by value with storages, entities and bit sets through the real impls; "
+    "rows and dumps compared with the specification.", "5.C16")
 REASONS = {}
 
 checks = []
